@@ -47,9 +47,29 @@ class KeyEval:
             return None
         l, sp = strip_place(op["place"])
         if sp:
+            # component of a pair ordered by hand: `let (a, b) = if d1 <= d2 { (d1, d2) } else { (d2, d1) };`
+            if len(sp) == 1 and sp[0][0] == "f":
+                alts = []
+                for d in self.defs.of(l):
+                    if d[0] == "stmt" and d[4]["k"] == "agg" and d[4]["kind"].get("t") == "tuple" and sp[0][1] < len(d[4]["ops"]):
+                        alts.append(self.op(d[4]["ops"][sp[0][1]], depth + 1))
+                    elif d[0] == "stmt" and d[4]["k"] == "use" and d[4]["op"].get("k") in ("copy", "move"):
+                        inner = dict(d[4]["op"]["place"])
+                        alts.append(self.op({"k": "copy", "place": {"l": inner["l"], "p": list(inner["p"]) + [p for p in op["place"]["p"] if isinstance(p, dict)]}}, depth + 1))
+                    else:
+                        alts.append(None)
+                if len(alts) == 2 and sorted(alts, key=str) == [("p", 1), ("p", 2)]:
+                    return ("sorted", sp[0][1])
+                if len(alts) == 1:
+                    return alts[0]
             return None
         if l in self.dparams and not self.defs.of(l):
             return ("p", self.dparams.index(l) + 1)
+        ds2 = self.defs.of(l)
+        if len(ds2) == 2 and all(d[0] == "stmt" and d[4]["k"] == "use" for d in ds2):
+            alts = [self.op(d[4]["op"], depth + 1) for d in ds2]
+            if sorted(alts, key=str) == [("p", 1), ("p", 2)]:
+                return ("sorted", None)
         d = _single_def(self.defs, l)
         if d is None:
             return None
@@ -131,6 +151,8 @@ def key_multiset(variant, args):
         a, b = args
         if a == ("min",) and b == ("max",):
             return (1, 2)
+        if a[0] == "sorted" and b[0] == "sorted" and a != b:
+            return (1, 2)      # the two components of a hand-ordered pair (one is the smaller, the other the larger argument)
         if a[0] == "p" and b[0] == "p" and a == b:
             return (a[1], a[1])
         return None      # (min,min), (max,min), (p1,p2) un-canonicalised ...
